@@ -52,6 +52,7 @@ type mxExec struct {
 	// a signal was accepted in two modes (fixed and with ids) in one multiplexer: the
 	// membership / message-view oracles have already reported and stop
 	structTaint bool
+	knownTaint  bool // a finding of the recorded classes D35 / D73 was reported on this world
 	panicked    bool
 	// counters for the histogram
 	events map[string]int
@@ -67,6 +68,12 @@ func newMxExec() *mxExec {
 func (muxStream) NewExec() Exec       { return newMxExec() }
 func (e *mxExec) Findings() []Finding { return e.fs }
 func (e *mxExec) fail(prop, sig, d string) {
+	switch sig {
+	case "reinsertion-moved-signal", "shared-follower-moved", "panic-negative-start":
+		// the two recorded defects of the multiplexer (D35, D73) and their direct consequence:
+		// only THESE make a later "rejected but changed" a consequence of a known defect
+		e.knownTaint = true
+	}
 	if len(e.fs) < 12 {
 		e.fs = append(e.fs, Finding{Prop: prop, Sig: sig, Detail: d, Line: e.nline})
 	}
@@ -448,7 +455,7 @@ func (e *mxExec) Do(line string) string {
 	if strings.HasPrefix(out, "err") {
 		if after := e.worldSnap(); after != before {
 			sig := "rejected-but-changed"
-			if e.structTaint || len(e.posTaint) > 0 {
+			if e.knownTaint {
 				// the objects were already corrupted by a reported defect (D35 / D73): a
 				// signal twice in a slice or overlapping followers make the second
 				// verification of modifySignalSize disagree with the first one
